@@ -600,7 +600,10 @@ void World::CheckCycles(const InvRecord& r, const std::set<std::string>& dd_at_s
   } else if (must) {
     // other legitimate early errors (e.g. a missing source) come first
     bool other_error = r.res.exit_code != 0 && (r.res.err.find("ninja: error:") != std::string::npos || r.res.out.find("build stopped") != std::string::npos);
-    if (!other_error)
+    // ... but "stuck [this is a bug]" is ninja admitting that it walked into the cycle undiagnosed
+    if (all.find("stuck [this is a bug]") != std::string::npos)
+      Report("C17", "cycle_missed", "the graph needed for the targets contains a dependency cycle; ninja did not diagnose it and ended with 'stuck [this is a bug]'" + std::string(r.spawns.empty() ? "" : " after starting commands"));
+    else if (!other_error)
       Report("C17", "cycle_missed", "the graph needed for the targets contains a dependency cycle, but ninja " + std::string(r.res.exit_code == 0 ? "exited with status 0" : "did not report it") + (r.spawns.empty() ? "" : " and started commands"));
   }
 }
